@@ -21,7 +21,9 @@ RSACERT512, EDCERT = 'rsa-sha2-512-cert-v01@openssh.com', 'ssh-ed25519-cert-v01@
 # (message index on the connection, fault): -1 = the connect itself, 0 = banner, 1 = KEXINIT, 2 = the reply carrying the measurement
 MENU = [(-1, ('refuse',)), (-1, ('timeout',)), (0, ('trunc_close', 0)), (0, ('reset',)), (0, ('trunc_stall', 3)), (1, ('trunc_close', 9)), (1, ('reset',)),
         (1, ('trunc_stall', 20)), (2, ('trunc_close', 0)), (2, ('reset',)), (2, ('trunc_stall', 0)), (2, ('type', 1)), (2, ('garbage', 40, 5)), (2, ('trunc_close', 7)),
-        (2, ('len', 0, 'plus1'))]
+        (2, ('len', 0, 'plus1')),
+        # legal interleaving first (MSG_DEBUG / MSG_IGNORE), then the fault
+        (2, ('debug_then', ('len', 0, 'plus1'))), (2, ('debug_then', ('emptypayload',))), (2, ('debug_then', ('trunc_close', 3))), (2, ('then_more', ('len', 0, 'plus1'), 4))]
 
 
 def _mixed():
@@ -44,7 +46,14 @@ def _small():
                     host_keys=P.standard_host_keys(keys, rsa_bits=1024, ca='rsa', ca_bits=1024), gex=P.GexPolicy([1024, 2048], P.PREFER))
 
 
-SERVERS = {'mixed': _mixed, 'certs': _certs, 'small': _small}
+def _osshgex():
+    # OpenSSH's way of answering group-exchange requests (falls back to 2048 bits when the range allows): the tool makes an extra probe to tell
+    keys = ['rsa-sha2-512', 'ssh-ed25519']
+    return P.Server(label='fi', banner=b'SSH-2.0-OpenSSH_8.4', kex=['curve25519-sha256', GEX256], key=keys, enc=['aes256-ctr'], mac=['hmac-sha2-256-etm@openssh.com'],
+                    host_keys=P.standard_host_keys(keys, rsa_bits=3072), gex=P.GexPolicy([2048, 3072, 4096], P.OPENSSH))
+
+
+SERVERS = {'mixed': _mixed, 'certs': _certs, 'small': _small, 'osshgex': _osshgex}
 
 
 def entries(doc):
